@@ -306,11 +306,25 @@ def scripts(ck, n, label, **genkw):
 # ------------------------------------------------------------------------------------------------ (c) semantics
 def semantics(ck, n):
     cases = [GV.semantic_case(ck.rng) for _ in range(n)]
-    answers = ck.driver('Viral', [c['request'] for c in cases])
+    reqs, owner = [], []
+    for i, c in enumerate(cases):
+        reqs.append(c['request']); owner.append((i, None))
+        for sh in c['shapes']:      # which attributes each single statement lacks a rule for
+            reqs.append('(analyse (%s) (%s))' % (' '.join(GV.name_sx(v) for v in c['ruled']), sh)); owner.append((i, sh))
+    all_answers = ck.driver('Viral', reqs)
+    answers, missing_of = {}, collections.defaultdict(set)
+    for (i, sh), a in zip(owner, all_answers):
+        if sh is None:
+            answers[i] = a
+        else:
+            x = parse(a)
+            if x[0][1] == 'norule':
+                missing_of[i] |= set(t[1] for t in x[2:])
     st = GV.structures(GV.SEM_STRUCT)
     outs = run_pool([(c['vtl'], st, None, None, 60, True) for c in cases])
     hist = collections.Counter()
-    for c, a, o in zip(cases, answers, outs):
+    for i, (c, o) in enumerate(zip(cases, outs)):
+        a = answers[i]
         x = parse(a)
         head = x[0][1]
         if head == 'bad-request':
@@ -331,31 +345,15 @@ def semantics(ck, n):
             continue
         if eng_rejects:
             # the reported attribute is one of the un-ruled ones of some statement
-            missing = set()
-            for sh in c['shapes']:
-                one = ck_shape_missing(ck, c, sh)
-                missing |= one
-            named = [m for m in missing if ('attribute %s ' % m) in o[3]]
+            named = [m for m in missing_of[i] if ('attribute %s ' % m) in o[3]]
             if not named:
                 hist['DISAGREE:name'] += 1
-                ck.violation('semantic:1-3-3-6-names-another-attribute', rep, 'reported %s, un-ruled %s' % (o[3][:120], sorted(missing)))
+                ck.violation('semantic:1-3-3-6-names-another-attribute', rep, 'reported %s, un-ruled %s' % (o[3][:120], sorted(missing_of[i])))
                 continue
         hist['agree:' + ('rejected' if eng_rejects else 'accepted')] += 1
         ck.count(('sem', c['vtl']), nontrivial=True)
     ck.note('semantic_outcomes', dict(hist))
     return hist
-
-
-_missing_cache = {}
-
-
-def ck_shape_missing(ck, c, sh):
-    key = (tuple(c['ruled']), sh)
-    if key not in _missing_cache:
-        a = ck.driver('Viral', ['(analyse (%s) (%s))' % (' '.join(GV.name_sx(v) for v in c['ruled']), sh)])[0]
-        x = parse(a)
-        _missing_cache[key] = set(t[1] for t in x[2:]) if x[0][1] == 'norule' else set()
-    return _missing_cache[key]
 
 
 # ------------------------------------------------------------------------------------------------ (d) replays
